@@ -386,15 +386,13 @@ func c17Subjects() []c17Subject {
 		Limit() int
 		BusyCount() int
 		IsLimitExceeded() bool
-		Acquire()
-		Release()
 		Name() string
 		Percent() float64
 		String() string
-	}) []c17Method {
+	}, acqRel func()) []c17Method { // (Acquire / Release are called by statement, whatever they return)
 		return []c17Method{
 			{"UpdateLimit", true, func(g, a int) { p.UpdateLimit(int32(1 + a%100)) }},
-			{"AcquireRelease", true, func(g, a int) { p.Acquire(); p.Release() }},
+			{"AcquireRelease", true, func(g, a int) { acqRel() }},
 			{"Accessors", false, func(g, a int) { _, _, _, _, _ = p.BusyCount(), p.Limit(), p.Name(), p.Percent(), p.IsLimitExceeded() }},
 			{"String", false, func(g, a int) { _ = p.String() }},
 		}
@@ -402,12 +400,14 @@ func c17Subjects() []c17Subject {
 	subs = append(subs,
 		c17Subject{"lookup-partition-object", func() ([]c17Method, func()) {
 			r := reg()
-			ms := partMethods(strategy.NewLookupPartitionWithMetricRegistry("a", 0.3, 1, r))
+			lp := strategy.NewLookupPartitionWithMetricRegistry("a", 0.3, 1, r)
+			ms := partMethods(lp, func() { lp.Acquire(); lp.Release() })
 			return append(ms, c17Method{"PollGauges", false, func(g, a int) { r.(*recRegistry).pollAll() }}), func() {}
 		}},
 		c17Subject{"predicate-partition-object", func() ([]c17Method, func()) {
 			r := reg()
-			ms := partMethods(strategy.NewPredicatePartitionWithMetricRegistry("a", 0.3, matchers.StringPredicateMatcher("a", false), r))
+			pp := strategy.NewPredicatePartitionWithMetricRegistry("a", 0.3, matchers.StringPredicateMatcher("a", false), r)
+			ms := partMethods(pp, func() { pp.Acquire(); pp.Release() })
 			return append(ms, c17Method{"PollGauges", false, func(g, a int) { r.(*recRegistry).pollAll() }}), func() {}
 		}},
 	)
